@@ -24,7 +24,7 @@ type c05Triple struct {
 type domEdit struct {
 	Op   string `json:"op"` // addat | removeat | listappend | listset | listclear
 	Path string `json:"path"`
-	Idx  int    `json:"idx,omitempty"`
+	Idx  int    `json:"idx"`
 	V    W      `json:"v,omitempty"`
 }
 
